@@ -16,13 +16,17 @@ def col (m : Arr α) (j : Nat) : List α := (List.range (m.shape.headD 0)).map (
 def mapCols (h : Nat → List α → List α) (n' : Nat) (m : Arr α) : Arr α :=
   Arr.ofFn [n', m.shape.getD 1 0] (fun idx => (h (idx.getD 1 0) (col m (idx.getD 1 0))).getD (idx.getD 0 0) default)
 
+/-- coords[dim] ← newCoord on the unfolded object (dim is first) -/
+def replaceCoord0 (nc : Option (List κ)) (cs : List (List κ)) : List (List κ) :=
+  match nc with | some c => setAt cs 0 c | none => cs
+
 /-- unfold(dim); values[:, j] ← h j values[:, j]; coords[dim] ← newCoord; (folded_shape patched when the
     length changes); fold().  `h` also receives the column number (for per-trace parameters). -/
 def bracket (arange : Nat → List κ) (d : Data κ α) (dim : String) (h : Nat → List α → List α) (n' : Nat)
     (newCoord : Option (List κ)) : Except Err (Data κ α) := do
   let u ← d.unfold arange dim
   let u' := { u with values := mapCols h n' u.values,
-                     coords := match newCoord with | some c => setAt u.coords 0 c | none => u.coords,
+                     coords := replaceCoord0 newCoord u.coords,
                      unf := u.unf.map (fun (p : List Nat × List String) => (setAt p.1 0 n', p.2)) }
   u'.fold
 
